@@ -5,6 +5,8 @@ package main
 
 import (
 	"bufio"
+	"crypto/sha256"
+	"encoding/hex"
 	"encoding/json"
 	"fmt"
 	"github.com/go-openapi/swag"
@@ -38,6 +40,36 @@ type mcRun struct {
 	Exported    int
 	InvViolated string
 	Tail        string
+	Cached      bool // the exploration of exactly these modules and constants was done by an earlier check run on this machine
+}
+
+// explorations answered from .build/mccache in this process (reported in the evidence)
+var mcReused []string
+
+type mcCacheEntry struct {
+	Run   *mcRun
+	Lines []string
+}
+
+// mcCacheKey: the run is a function of the specification files and the constants only (never of the code under test)
+func mcCacheKey(module, cfg string, consts map[string]string) string {
+	h := sha256.New()
+	fmt.Fprintf(h, "%s|%s|", module, cfg)
+	ks := make([]string, 0, len(consts))
+	for k := range consts {
+		ks = append(ks, k)
+	}
+	sort.Strings(ks)
+	for _, k := range ks {
+		fmt.Fprintf(h, "%s=%s|", k, consts[k])
+	}
+	ents, _ := os.ReadDir(filepath.Join(verifRoot, "spec"))
+	for _, e := range ents {
+		if b, err := os.ReadFile(filepath.Join(verifRoot, "spec", e.Name())); err == nil {
+			fmt.Fprintf(h, "%s:%x|", e.Name(), sha256.Sum256(b))
+		}
+	}
+	return hex.EncodeToString(h.Sum(nil))[:24]
 }
 
 var lastMC = map[string]*mcRun{}
@@ -50,6 +82,32 @@ func runMC(module string, consts map[string]string, timeout time.Duration, worke
 }
 
 func runMCcfg(module, cfg string, consts map[string]string, timeout time.Duration, workers int) (*mcRun, []string, error) {
+	cacheFile := filepath.Join(verifRoot, ".build", "mccache", module+"-"+mcCacheKey(module, cfg, consts)+".json")
+	// (development aid, off by default: registered checks always explore, so that every count in the evidence is measured by the run)
+	if os.Getenv("VERIF_MCCACHE") != "" {
+		if b, err := os.ReadFile(cacheFile); err == nil {
+			var ce mcCacheEntry
+			if json.Unmarshal(b, &ce) == nil && ce.Run != nil && ce.Run.OK {
+				ce.Run.Cached = true
+				mcReused = append(mcReused, filepath.Base(cacheFile))
+				return ce.Run, ce.Lines, nil
+			}
+		}
+	}
+	run, lines, err := runMCuncached(module, cfg, consts, timeout, workers)
+	if err == nil && run != nil && run.OK && os.Getenv("VERIF_MCCACHE") != "" {
+		if b, e := json.Marshal(mcCacheEntry{Run: run, Lines: lines}); e == nil {
+			os.MkdirAll(filepath.Dir(cacheFile), 0o755)
+			tmp := cacheFile + fmt.Sprintf(".%d", os.Getpid())
+			if os.WriteFile(tmp, b, 0o644) == nil {
+				os.Rename(tmp, cacheFile)
+			}
+		}
+	}
+	return run, lines, err
+}
+
+func runMCuncached(module, cfg string, consts map[string]string, timeout time.Duration, workers int) (*mcRun, []string, error) {
 	dir, err := scratchDir("mc")
 	if err != nil {
 		return nil, nil, err
